@@ -1,6 +1,7 @@
 import HcipyVerif.Model.Proto
 import HcipyVerif.Model.FftGrid
 import HcipyVerif.Model.FftIndex
+import HcipyVerif.Model.FilterM
 
 /-!
 Line-protocol front end of the C02 model.
@@ -10,6 +11,12 @@ Line-protocol front end of the C02 model.
   `k`, sample `j`; answers whether `F_kj·(Δ/2π) = conj(B_jk)·w` holds exactly (coefficients equal,
   phases opposite modulo one turn), followed by both monomials.
 * `full N q fov` — whether the request gives a full (uncropped) FFT pair, i.e. `Mo = M`.
+* `filterm fwd|bwd n M [re…] [im…] b j` — `filterMX` (`Model/FilterM.lean`): the matrix-field branch of
+  `FourierFilter._operation` on one grid axis (`n` samples zero-padded into `M`, cut-out start
+  `M/2 - n/2`), transfer function `D r a' b'` = entry `4r + 2a' + b'` of the lists (real and imaginary
+  parts, native FFT order), applied to the unit impulse in component `b`, sample `j`; `bwd` uses
+  `fmCtrX` (`field_conjugate_transpose`).  Answers all outputs `(a, i)`, component-major, as
+  `c:t:r+…` sums separated by `;`.
 -/
 namespace HcipyVerif.Driver.C02
 open HcipyVerif.Proto HcipyVerif.Fft
@@ -22,6 +29,11 @@ def showPSum (p : PSum) : String :=
   | [] => "0"
   | [x] => s!"{showRat x.c}:{showRat x.t}:{showRat x.r}"
   | _ => "multi"
+
+def showPSumFull (p : PSum) : String :=
+  match p.terms with
+  | [] => "0"
+  | ts => "+".intercalate (ts.map fun x => s!"{showRat x.c}:{showRat x.t}:{showRat x.r}")
 
 def adjointOk (dT w : Rat) (F B : PSum) : Bool :=
   match F.terms, B.terms with
@@ -48,6 +60,16 @@ def step (st : St) : List String → St × String
       let M := paddedSize N q
       (st, s!"ok {showBool (outSize M fov == M)} {M} {showRat (roundSlack (q * N))} {showRat (outSlack M fov)}")
     | _, _, _ => (st, "bad-op")
+  | ["filterm", dir, n, M, res, ims, b, j] =>
+    match parseNat? n, parseNat? M, parseRatList? res, parseRatList? ims, parseNat? b, parseNat? j with
+    | some n, some M, some re, some im, some b, some j =>
+      if dir != "fwd" && dir != "bwd" then (st, "bad-op")
+      else if M = 0 || n = 0 || n > M || re.length != 4 * M || im.length != 4 * M || b > 1 || j ≥ n then
+        (st, "err value")
+      else
+        let outs := filterMImpulse (dir == "bwd") n M re im (b == 1) j
+        (st, "ok " ++ ";".intercalate (outs.map showPSumFull))
+    | _, _, _, _, _, _ => (st, "bad-op")
   | _ => (st, "bad-op")
 
 end HcipyVerif.Driver.C02
